@@ -83,3 +83,22 @@ pub fn map<I: Sync, R: Send>(items: &[I], f: impl Fn(usize, &I) -> R + Sync) -> 
     });
     out.into_inner().unwrap().into_iter().map(|x| x.expect("worker result")).collect()
 }
+
+/// Wall-clock budget of one check run (seconds): VERIF_BUDGET_S, default 480 for the quick tier and
+/// 2700 for the thorough tier. Engines stop starting new work when it is exhausted and report a cap
+/// (the evidence then says `exhaustive: false` and names what was completed).
+pub fn remaining_budget_s() -> u64 {
+    static START2: std::sync::OnceLock<std::time::Instant> = std::sync::OnceLock::new();
+    let start = START2.get_or_init(std::time::Instant::now);
+    let default = if std::env::var("VERIF_TIER").map(|t| t == "thorough").unwrap_or(false) { 2700 } else { 480 };
+    let budget: u64 = std::env::var("VERIF_BUDGET_S").ok().and_then(|s| s.parse().ok()).unwrap_or(default);
+    budget.saturating_sub(start.elapsed().as_secs())
+}
+
+pub fn over_budget() -> bool {
+    static START: std::sync::OnceLock<std::time::Instant> = std::sync::OnceLock::new();
+    let start = START.get_or_init(std::time::Instant::now);
+    let default = if std::env::var("VERIF_TIER").map(|t| t == "thorough").unwrap_or(false) { 2700 } else { 480 };
+    let budget: u64 = std::env::var("VERIF_BUDGET_S").ok().and_then(|s| s.parse().ok()).unwrap_or(default);
+    start.elapsed().as_secs() > budget
+}
